@@ -868,9 +868,80 @@ def sizes_table():
 
 
 # ------------------------------------------------------------------------------------------------ driver
+def closed_stays_closed(ctx):
+    """'a transport that ends yields EOFError at the reader or writer and a closed stream' - and stays that way: a channel that
+    was closed must not come back to life when the process opens new descriptors (which get the numbers just released), and a
+    late user of the dead channel must not reach into an innocent second channel."""
+    import os
+    import socket
+    from rpyc.core.channel import Channel
+    from rpyc.core.stream import PipeStream, SocketStream
+    for kind in ("pipes", "socketpair"):
+        for late_op in ("send", "recv", "poll-then-recv"):
+            def pair():
+                if kind == "pipes":
+                    a, b = PipeStream.create_pair()
+                else:
+                    s1, s2 = socket.socketpair()
+                    a, b = SocketStream(s1), SocketStream(s2)
+                return Channel(a), Channel(b)
+            a1, a2 = pair()
+            wit = dict(family="closed-stays-closed", transport=kind, late_operation=late_op)
+            try:
+                a1.send(b"first")
+                if a2.recv() != b"first":
+                    ctx.violation("C05/closed/%s/warm-up" % kind, "warm-up packet altered", wit)
+                a1.close()
+                a2.close()
+                # the process goes on and opens a replacement channel: the kernel hands out the lowest free numbers
+                b1, b2 = pair()
+                try:
+                    b2.send(b"reply-0")
+                    outcome = None
+                    try:
+                        if late_op == "send":
+                            a1.send(b"late packet of a dead channel")
+                            outcome = "send succeeded"
+                        elif late_op == "recv":
+                            outcome = "recv returned %r" % (a1.recv(),)
+                        else:
+                            outcome = "poll returned %r" % (a1.poll(0),)
+                            outcome += ", recv returned %r" % (a1.recv(),)
+                    except EOFError:
+                        ctx.count("late_operations_refused_with_EOFError")
+                    except Exception as e:
+                        # poll() on a closed stream may report the closed descriptor in its own way; the data operations may not
+                        if not (late_op == "poll-then-recv" and outcome is None):
+                            outcome = "%s raised %s" % (late_op, type(e).__name__)
+                    if outcome is not None and not outcome.startswith("poll returned False, recv") and "raised" not in outcome:
+                        ctx.violation("C05/closed/%s/usable-after-close" % kind, "a %s on a channel that had been closed did not fail with EOFError: %s" % (late_op, outcome), wit)
+                    elif outcome is not None and "raised" in outcome:
+                        ctx.violation("C05/closed/%s/wrong-exception" % kind, "a %s on a closed channel: %s, not EOFError" % (late_op, outcome), wit)
+                    if not a1.closed:
+                        ctx.violation("C05/closed/%s/not-closed" % kind, "the closed channel does not report closed", wit)
+                    # the innocent channel: exactly its own packets, in order, nothing else
+                    b1.send(b"request-1")
+                    got2 = b2.recv() if b2.poll(2) else None
+                    got1 = b1.recv() if b1.poll(2) else None
+                    extra1 = b1.recv() if b1.poll(0) else None
+                    extra2 = b2.recv() if b2.poll(0) else None
+                    if (got1, got2, extra1, extra2) != (b"reply-0", b"request-1", None, None):
+                        ctx.violation("C05/closed/%s/other-channel-disturbed" % kind, "after a late %s on a dead channel a second, unrelated channel received %r / %r "
+                                      "(+ %r / %r) instead of exactly its own two packets" % (late_op, got1, got2, extra1, extra2), wit)
+                    ctx.case(("closed-stays-closed", kind, late_op), nontrivial=True)
+                    ctx.count("closed_channel_probes")
+                finally:
+                    b1.close()
+                    b2.close()
+            except Exception as e:
+                ctx.violation("C05/closed/%s/aborted/%s" % (kind, type(e).__name__), "closed-stays-closed scenario aborted: %r" % (e,), wit)
+
+
 def run(ctx):
     rng = ctx.rng
     first = ctx.shard[0] == 0
+    if first:
+        closed_stays_closed(ctx)
     small, large = sizes_table()
     table = set(small + large)
     zc = []
